@@ -18,7 +18,10 @@ def attribute(tag, run, sibling_clean):
     """property ids a mismatch tag of one run counts for"""
     m, fam = run['m'], run['fam']
     if tag == 'panic':
-        return ['C02']
+        # a panic is a totality violation (C02); where the reference predicts a result it is also a wrong result of that decoder family
+        if fam == 'sweep':
+            return ['C02']
+        return ['C02'] + ((['C04'] + (['C05'] if m == 'lax' else [])) if fam == 'struct' else (['C03'] if m == 'strict' else ['C05']))
     if tag in ('oob', 'placement'):
         return ['C01']
     if tag.startswith('c04.'):
